@@ -50,7 +50,7 @@ def encode(asc, style):
         while b:
             a, b = b, a % b
         common_ppq = common_ppq * pp["qdivs"][0][1] // a
-    durppq = bool(style.get("durppq")) and style["ppq"]
+    durppq = bool(style.get("durppq"))
 
     def dppq(d_q):
         # explicit duration in pulses, as notation software writes it next to @dur
